@@ -207,7 +207,23 @@ def main():
     if a.replay:
         doc = json.load(open(a.replay))
         scenarios = [s for s in mod.SCENARIOS if s["entry"] == doc["entry"]]
-    sess = Session()
+    try:
+        # only the harness files of the packages this property's scenarios live in are added to the scratch copy
+        sess = Session(harness_dirs=sorted({s.get("harness", "root") for s in scenarios}) or None)
+    except ir.ExportError as e:
+        # the tree + harness does not load (e.g. a refactoring removed an unexported function a harness names):
+        # nothing can be decided - reported as such, never as a violation (DESIGN.md section 8)
+        print("INCONCLUSIVE: property=%s SKIPPED anchor-missing: the harness does not build against this tree:\n%s" % (prop, str(e)[-1500:]))
+        ev = dict(property_id=prop, tier=a.tier, seed=seed, level="model_checking",
+                  coverage=dict(states=1, transitions=1, traces_validated_against_impl=0,
+                                samples=[dict(note="harness did not build; no scenario was explored")], obligations=0, discharged=0,
+                                exhaustive=False, explanation="SKIPPED anchor-missing: " + str(e)[-600:]),
+                  assumptions=[], wall_s=round(time.time() - t0, 2), violations=0)
+        evdir = os.environ.get("VERIF_EVIDENCE_DIR") or os.path.join(VERIF, "evidence")
+        os.makedirs(evdir, exist_ok=True)
+        with open(os.path.join(evdir, prop + ".json"), "w") as fh:
+            json.dump(ev, fh, indent=1)
+        sys.exit(0)
     known = json.load(open(os.path.join(VERIF, "known_findings.json")))
     kfs = [f for f in known.get("findings", []) if f["property"] == prop]
     jobs = [(s, sess.sock, sess.pkgpath(s.get("harness", "root")), seed, a.v and len(scenarios) == 1, kfs) for s in scenarios]
